@@ -40,17 +40,22 @@ def be32(b, o):
 
 # ====================================================================================== concretisation of an abstract case
 def make_dcd(n, r):
-    """A DCD of exactly n bytes: header, one Write Data command, NOPs.  The most significant byte of every value is even so that
-    no word can imitate a Thumb reset vector for SPSDK's heuristic application finder (assumption, see run())."""
+    """A DCD of exactly n bytes: header, one Write Data command, optionally one Check Data command, NOPs.  The most significant
+    byte of every value is even so that no word can imitate a Thumb reset vector for SPSDK's heuristic application finder."""
     assert n % 4 == 0 and n >= 12
     rest = n - 4
-    z = 0 if (rest - 4) % 8 == 0 else 1
-    k = (rest - 4 * z - 4) // 8
+    chk = b""
+    if rest >= 40 and r.random() < 0.5:  # CHK_DAT, 4 bytes wide, ops 0..3, address + mask (no count)
+        chk = bytes([0xCF, 0x00, 0x0C, (r.randrange(4) << 3) | 4]) + struct.pack(">II", 0x400D8000 + 4 * r.randrange(0x100), 1 << r.randrange(31))
+    room = rest - len(chk)
+    z = 0 if (room - 4) % 8 == 0 else 1
+    k = (room - 4 * z - 4) // 8
     body = b""
     if k >= 1:
         body = bytes([0xCC]) + struct.pack(">H", 4 + 8 * k) + bytes([0x04])
         for _ in range(k):
             body += struct.pack(">II", 0x400A0000 + 4 * r.randrange(0, 0x1000), (r.randrange(0, 0x40) << 25) | r.getrandbits(24))
+    body += chk
     body += bytes([0xC0, 0x00, 0x04, 0x00]) * ((rest - len(body)) // 4)
     out = bytes([0xD2]) + struct.pack(">H", n) + bytes([0x41]) + body
     assert len(out) == n, (len(out), n)
@@ -63,7 +68,10 @@ XMCD_SEL = [(0, 0, 0), (1, 0, 0), (0, 0, 1), (0, 1, 0), (1, 0, 1), (1, 1, 0)]  #
 def make_xmcd(n, sel, r):
     iface, inst, btype = XMCD_SEL[sel]
     hdr = bytes([n & 0xFF, (btype << 4) | (n >> 8), (iface << 4) | inst, 0xC0])
-    return hdr + bytes(r.randrange(256) for _ in range(n - 4)), f"if{iface}-inst{inst}-type{btype}"
+    data = bytearray(r.randrange(256) for _ in range(n - 4))
+    if len(data) > 0xC0:  # file offset 0x104 (a place SPSDK's application finder probes): even byte = never a Thumb reset vector
+        data[0xC0] &= 0xFE
+    return hdr + bytes(data), f"if{iface}-inst{inst}-type{btype}"
 
 
 _db_lays = None
@@ -212,15 +220,17 @@ def concretise(c, wd):
         if flags == "enc":
             ctx["dek_path"] = os.path.join(wd, "dek.bin")
             if c["reuseDek"]:
+                ctx["dek_given"] = bytes(r.randrange(256) for _ in range(c["dekLen"]))
                 with open(ctx["dek_path"], "wb") as f:
-                    f.write(bytes(r.randrange(256) for _ in range(c["dekLen"])))
+                    f.write(ctx["dek_given"])
             sec("SecretKey", SecretKey_Name="dek.bin", SecretKey_Length=c["dekLen"] * 8, SecretKey_VerifyIndex=r.choice([0, 2, 3]),
                 SecretKey_TargetIndex=r.randrange(0, 4), SecretKey_ReuseDek=1 if c["reuseDek"] else 0)
             tgt = sections[-1]["options"][3]["SecretKey_TargetIndex"]
             dk = {"Decrypt_Engine": "ANY", "Decrypt_EngineConfiguration": "0", "Decrypt_VerifyIndex": tgt, "Decrypt_MacBytes": c["macLen"]}
             if c["nonceGiven"]:
+                ctx["nonce_given"] = bytes(r.randrange(256) for _ in range(13))
                 with open(os.path.join(wd, "nonce.bin"), "wb") as f:
-                    f.write(bytes(r.randrange(256) for _ in range(13)))
+                    f.write(ctx["nonce_given"])
                 dk["Decrypt_Nonce"] = "nonce.bin"
             sec("Decrypt", **dk)
             if not extra_first:
@@ -323,6 +333,19 @@ def cms_facts(der, content, pub, signer_der):
     except Exception:  # noqa: BLE001 - malformed DER in tampered files
         pass
     return res
+
+
+def der_len(body):
+    """Total length of the DER object at the start of body (its own header included); len(body) if that is not a SEQUENCE."""
+    if len(body) < 4 or body[0] != 0x30:
+        return len(body)
+    if body[1] < 0x80:
+        return 2 + body[1]
+    if body[1] == 0x81:
+        return 3 + body[2]
+    if body[1] == 0x82:
+        return 4 + int.from_bytes(body[2:4], "big")
+    return len(body)
 
 
 def srk_entries(tbl):
@@ -481,7 +504,8 @@ def _walk(d, ctx, ev, reg):
                         pub, ca = srk_pub(ents[src])
                         e["ca"] = ca
                         if pub is not None:
-                            e["keyOk"] = same_pub(pub, x509.load_der_x509_certificate(ctx["srk_der"]).public_key())
+                            # anchors come without the SRK certificate: there the fuse hash alone pins the table
+                            e["keyOk"] = ctx.get("srk_der") is None or same_pub(pub, x509.load_der_x509_certificate(ctx["srk_der"]).public_key())
                             keys[tgt] = pub
                     reg["srktable"] = [(p + 4, p + tl)]
                 ev.append(e)
@@ -491,7 +515,7 @@ def _walk(d, ctx, ev, reg):
                 cl = be16(d, p + 1)
                 need(p, cl, "certificate")
                 body = d[p + 4:p + cl]
-                dl = 4 + int.from_bytes(body[2:4], "big") if len(body) >= 4 and body[0] == 0x30 and body[1] == 0x82 else len(body)
+                dl = min(der_len(body), len(body))
                 der = body[:dl]
                 ok, pub = cert_chain_ok(der, keys[src]) if src in keys else (False, None)
                 want = ctx["csfk_der"] if par == 2 else ctx["imgk_der"]
@@ -521,7 +545,7 @@ def _walk(d, ctx, ev, reg):
                 rng_from, rng_to = c, c + clen
             if fmt == 0xC5:
                 body = d[p + 4:p + sl]
-                dl = 4 + int.from_bytes(body[2:4], "big") if len(body) >= 4 and body[0] == 0x30 and body[1] == 0x82 else len(body)
+                dl = min(der_len(body), len(body))
                 der = body[:dl]
                 signer = ctx["csfk_der"] if n_cms == 0 else ctx["imgk_der"]
                 kslot = key if key in keys else (0 if (key == 1 and inp["fast"]) else key)
@@ -556,7 +580,9 @@ def _walk(d, ctx, ev, reg):
                     except Exception:  # noqa: BLE001 - InvalidTag, bad lengths
                         pass
                 e.update({"macTag": d[p], "macLen": sl, "macVer": d[p + 3], "nonceLen": nonce_len, "macBytes": mac_bytes,
-                          "dekLen": len(dek) if dek is not None else 0, "macOk": mac_ok, "plainOk": plain_ok})
+                          "dekLen": len(dek) if dek is not None else 0, "macOk": mac_ok, "plainOk": plain_ok,
+                          "dekKept": ctx.get("dek_given") is None or dek == ctx["dek_given"],
+                          "nonceKept": ctx.get("nonce_given") is None or nonce == ctx["nonce_given"]})
                 reg["mac"] = [(p + 8, p + 8 + nonce_len + mac_bytes)]
                 reg["encapp"] = [(fo(a), fo(a) + n) for a, n in blocks]
             ev.append(e)
@@ -608,7 +634,7 @@ def parse_back(d, ctx):
         return {"ev": "ParseBack", "ok": True, "self": lim(ivt.ivt_address), "bd": lim(ivt.bdt_address), "dcd": lim(ivt.dcd_address),
                 "csf": lim(ivt.csf_address), "entry": lim(ivt.app_address), "bdStart": lim(bdt.app_start), "bdLen": n31(bdt.app_length),
                 "plugin": n31(bdt.plugin), "flags": hab.flags, "hasDcd": hab.dcd_segment is not None, "hasXmcd": hab.xmcd_segment is not None,
-                "hasCsf": csf is not None, "appAt": aa, "nCmds": len(csf.segment.commands) if csf else 0,
+                "hasCsf": csf is not None, "appAt": aa, "cStart": lim(hab.start_address), "cIvtOff": n31(hab.ivt_offset), "nCmds": len(csf.segment.commands) if csf else 0,
                 "ivtEq": hab.ivt_segment.export() == d[0:32], "bdEq": hab.bdt_segment.export()[:12] == d[bd_at:bd_at + 12],
                 "cfgEq": cfg_eq, "appEq": app_eq, "csfEq": (csf.export() == d[csf_at:csf_at + 0x2000]) if csf else True,
                 "reexpEq": hab.export() == d}
@@ -650,6 +676,39 @@ def run_case(arg):
                 t[pos] ^= 1 << bit
                 tev, _ = execute(bytes(t), ctx)
                 out.append({"id": f"{tid}/t/{cls}/{pos}.{bit}", "inp": ctx["inp"], "ev": tev, "meta": {"tamper": cls, "pos": pos, "bit": bit}})
+    return out
+
+
+def anchor_traces():
+    """Golden images of the repository's test data (frozen copies under anchors/C07, produced by NXP's tool chain): the ROM part of
+    the automaton must accept every one of them - this binds the R-spec to artefacts that were not produced by the tree under test."""
+    from spsdk.image.secret import SrkTable
+
+    from lib.common import ROOT
+
+    base = os.path.join(ROOT, "anchors", "C07")
+    out = []
+    for name in sorted(os.listdir(base)):
+        a = os.path.join(base, name)
+        m = json.load(open(os.path.join(a, "meta.json")))
+        o, sec = m["options"], m["sections"]
+        rd = lambda f: open(os.path.join(a, f), "rb").read() if os.path.exists(os.path.join(a, f)) else None  # noqa: E731
+        d, app, dcd, table = rd("output.bin"), rd("app.bin"), rd("dcd.bin"), rd("srk_table.bin")
+        flags = {0: "plain", 8: "auth", 12: "enc"}[o["flags"]]
+        entry = o.get("entrypointaddress") or m.get("exec_start") or struct.unpack_from("<I", app, 4)[0]
+        ents = srk_entries(table) if table else []
+        inp = {"start": lim(o["startaddress"]), "ivtOff": o["ivtoffset"], "ils": o["initialloadsize"], "appLen": len(app), "flags": flags,
+               "cfgKind": "dcd" if dcd else "none", "cfgLen": len(dcd) if dcd else 0, "entry": lim(int(entry)),
+               "ver": int(sec["20"]["header_version"].replace(".", ""), 16) if "20" in sec else 0x40, "nSrk": len(ents or []),
+               "srcIdx": int(sec["21"]["installsrk_sourceindex"]) if "21" in sec else 0, "fast": "23" in sec,
+               "imgTgt": int(sec["25"]["installkey_targetindex"]) if "25" in sec else 0,
+               "vfyIdx": int(sec["26"]["authenticatedata_verificationindex"]) if "26" in sec else 0,
+               "macLen": int(sec["28"].get("decrypt_macbytes", 16)) if "28" in sec else 16, "dekLen": len(rd("dek.bin") or b""), "waive": []}
+        ctx = {"inp": inp, "app": app, "cfg_bytes": dcd or b"", "start": o["startaddress"], "srk_der": None,
+               "fuse": SrkTable.parse(table).export_fuses() if table else None, "csfk_der": rd("csfk.der"), "imgk_der": rd("imgk.der"),
+               "dek_path": os.path.join(a, "dek.bin") if rd("dek.bin") else None}
+        ev, _ = execute(d, ctx)
+        out.append({"id": "anchor/" + name, "inp": inp, "ev": ev, "meta": {}})
     return out
 
 
@@ -699,8 +758,10 @@ def finding_key(t, matched):
         cls = f"pcl{e.get('pcl')}-{c['tree']}"
     elif name == "BuildFailed":
         cls = f"{c['cfg']}-{c['tree'] if c['flags'] != 'plain' else 'nokeys'}-{c['keyvar'] if c['flags'] != 'plain' else ''}"
-    else:
+    elif name in ("Accept", "ParseBack"):
         cls = f"{c['lay']}-{m['cfg_cls']}"
+    else:
+        cls = f"{c['lay']}-{c['cfg']}"
     return f"C07/{c['flags']}/{name}/{hint(e)}/{cls}"
 
 
@@ -709,26 +770,31 @@ CANARY_FIELDS = [("ParseIvt", "self", lambda v: [v[0], (v[1] + 0x400) & 0xFFFF])
                  ("InstallKey", "fuseOk", lambda v: False), ("ParseBack", "appEq", lambda v: False)]
 
 
-def canary(traces):
-    """One known-good trace accepted; the same trace with one corrupted field rejected (for several fields)."""
-    good = next((t for t in traces if t["inp"]["flags"] == "auth" and t["inp"]["cfgKind"] != "none" and t["ev"][-1]["ev"] == "ParseBack"
+def canary_batch(traces):
+    """One known-good trace (must be accepted) and the same trace with one corrupted field each (must be rejected)."""
+    good = next((t for t in traces if t["inp"]["flags"] == "auth" and t["inp"]["cfgKind"] == "dcd" and t["ev"][-1]["ev"] == "ParseBack"
                  and t["ev"][-1].get("ok") and "/t/" not in t["id"]), None)
     if good is None:
-        raise Machinery("no authenticated trace with DCD/XMCD available for the canary")
-    good = dict(good, inp=dict(good["inp"], waive=[]))
-    batch = [{"id": "good", "inp": good["inp"], "ev": good["ev"]}]
+        raise Machinery("no authenticated trace with DCD available for the canary")
+    inp = dict(good["inp"], waive=[])
+    batch = [{"id": "canary/good", "inp": inp, "ev": good["ev"], "meta": {}}]
     for i, (evn, fld, fn) in enumerate(CANARY_FIELDS):
         ev = json.loads(json.dumps(good["ev"]))
         idx = [k for k, e in enumerate(ev) if e["ev"] == evn and fld in e and (fld != "blocks" or len(e[fld]) > 1)]
         if not idx:
             raise Machinery(f"canary: no event {evn}.{fld}")
-        ev[idx[-1] if evn == "Authenticate" else idx[0]][fld] = fn(ev[idx[-1] if evn == "Authenticate" else idx[0]][fld])
-        batch.append({"id": f"bad{i}-{evn}.{fld}", "inp": good["inp"], "ev": ev})
-    rej, _ = tlc.tv("C07", "HabRomTrace", batch)
+        k = idx[-1] if evn == "Authenticate" else idx[0]
+        ev[k][fld] = fn(ev[k][fld])
+        batch.append({"id": f"canary/bad{i}-{evn}.{fld}", "inp": inp, "ev": ev, "meta": {}})
+    return batch, good["id"]
+
+
+def canary_check(batch, good_id, rej):
+    got = {b["id"] for b in batch if b["id"] in rej}
     want = {b["id"] for b in batch[1:]}
-    if set(rej) != want:
-        raise Machinery(f"canary failed: rejected {sorted(rej)}, expected {sorted(want)} (good trace {good['id']})")
-    return f"1 good accepted, {len(want)} corrupted rejected"
+    if got != want:
+        raise Machinery(f"canary failed: rejected {sorted(got)}, expected {sorted(want)} (good trace = {good_id})")
+    return f"1 good accepted, {len(want)} corrupted rejected (copy of {good_id})"
 
 
 def strip(t):
@@ -746,13 +812,22 @@ def decide(v, traces):
 
     for t in traces:
         t["inp"]["waive"] = []
+    cb, good_id = canary_batch(traces)
+    anchors = anchor_traces()
     mains = [t for t in traces if "/t/" not in t["id"]]
     tampers = [t for t in traces if "/t/" in t["id"]]
-    rej, _ = tlc.tv("C07", "HabRomTrace", [strip(t) for t in traces], heap="8g", timeout=1500)
-    v.traces(len(traces))
+    rej, _ = tlc.tv("C07", "HabRomTrace", [strip(t) for t in cb + anchors + traces], heap="8g", timeout=1500)
+    v.extra["canary"] = canary_check(cb, good_id, rej)  # decided first: nothing below counts if the monitor is not bound
+    bad_anchors = [(t["id"], rej[t["id"]]) for t in anchors if t["id"] in rej]
+    if bad_anchors or len(anchors) < 11:
+        raise Machinery(f"golden images (anchors/C07, not produced by the tree under test) rejected by the automaton: {bad_anchors}")
+    v.extra["anchors_accepted"] = len(anchors)
+    v.traces(len(traces) + len(anchors))
     clean = {t["id"] for t in mains if t["id"] not in rej}
     for tid in clean:
         v.nontrivial(tid)
+    # the ROM part (everything up to and including Accept) was accepted without waiver: tampered copies of these are judged
+    rom_ok = clean | {t["id"] for t in mains if t["id"] in rej and rej[t["id"]][2] == "ParseBack"}
     n_waived_ok = 0
     todo = [(t, rej[t["id"]]) for t in mains if t["id"] in rej]
     for _round in range(3):
@@ -776,7 +851,7 @@ def decide(v, traces):
     n_t = n_trej = 0
     accepted_tampers = []
     for t in tampers:
-        if t["id"].split("/t/")[0] not in clean:
+        if t["id"].split("/t/")[0] not in rom_ok:
             continue
         n_t += 1
         if t["id"] in rej:
@@ -817,7 +892,6 @@ def run(tier):
     v.count(len(traces))
     say(f"[C07] executed {len(cases)} builds, {len(traces) - len(cases)} tampered copies ({v.timer.s() - t0:.1f}s)")
 
-    v.extra["canary"] = canary(traces)
     n_ok, n_wok, n_trej, n_tt = decide(v, traces)
     v.extra["tamper_rejected"] = f"{n_trej}/{n_tt}"
     v.extra["accepted_untampered"] = n_ok
@@ -833,7 +907,9 @@ def run(tier):
                      "(every ROM step + SPSDK's own parse)")
     v.cov["exhaustive"] = False
     v.cov["checker_cmd"] = "TLC HabRomMC (lemmas) ; TLC HabGen (cases) ; TLC HabRomTrace (decides each trace)"
-    v.extra["trusted_base"] = "hashlib, cryptography (RSA PKCS#1 v1.5 / ECDSA verify, X.509 parsing, AESCCM) called directly, asn1crypto (CMS parsing)"
+    v.extra["trusted_base"] = ["TLC 2 (tla2tools.jar) + CommunityModules (Json, IOUtils)", "hashlib (SHA-256)",
+                               "cryptography: RSA PKCS#1 v1.5 / ECDSA verification, X.509 parsing, AESCCM - called directly, never through spsdk.crypto",
+                               "asn1crypto: CMS / X.509 DER parsing", "harness/c07.py executor (validated step by step by HabRomTrace: every range it used is recomputed)"]
     v.assumptions += [
         "application offset (initial load size - IVT offset) is one of the device offsets of the database / of the repository's examples (0x400, 0xC00, 0x1000, 0x2000)",
         "DCD and XMCD are alternatives (both live at IVT+0x40); DCD words are chosen so that no byte pattern imitates a Thumb reset vector or an XMCD tag for SPSDK's heuristic parser",
@@ -852,7 +928,7 @@ def replay(path):
     w = json.load(open(path))["witness"]
     traces = run_case((w["case"], 0))
     for t in traces:
-        t["inp"]["waive"] = []
+        t["inp"]["waive"] = list(w.get("inp", {}).get("waive", []))
     rej, _ = tlc.tv("C07", "HabRomTrace", [strip(t) for t in traces])
     for t in traces:
         say(json.dumps({"id": t["id"], "ev": t["ev"]})[:3000])
